@@ -7,7 +7,8 @@ Not a registry entry by itself (not named props_C*.py).
 
 Wiring: append STREAM to ENTRY["streams"], append EXTRA_LEAN to ENTRY["lean_props_extra"] (its theorems are audited
 like those of Props/C12.lean), add MONITOR_SIGS to ENTRY["monitor_sigs"], extend trusted_base / assumptions with the
-lines below, add KNOWN_FINDINGS to known_findings.json (both fire on the unchanged tree in every generated run).
+lines below. The two defects this extension found are repaired in /repo (FIXED below; KNOWN_FINDINGS is empty): the
+model follows the repaired code (switch record `Fixes`, `Fixes.current` = /repo), the two monitors stay and are silent.
 lean_exe `drv-keystore` is already in lakefile.toml; hook eth2util/keystore/verif_export_keystore.go is committed in
 /repo (5e88c9a).
 
@@ -36,11 +37,11 @@ THEOREMS = [
     "CharonV.Keystore.extract_store_name",
     "CharonV.Keystore.dir_inert_of_no_occurrence",
     "CharonV.Keystore.dir_not_inert_witness",
-    "CharonV.Keystore.sequenced_accepts_iff_partial",
+    "CharonV.Keystore.sequenced_accepts_iff",
     "CharonV.Keystore.sequenced_result",
     "CharonV.Keystore.sequenced_order_independent",
     "CharonV.Keystore.sequenced_rejects_out_of_range",
-    "CharonV.Keystore.sequenced_rejects_duplicate_partial",
+    "CharonV.Keystore.sequenced_rejects_duplicate",
     "CharonV.Keystore.sequenced_zero_key_duplicate_witness",
     "CharonV.Keystore.roundtrip_sequenced",
     "CharonV.Keystore.keys_unsequenced_is_a_permutation",
@@ -56,31 +57,32 @@ THEOREMS = [
     "CharonV.Keystore.create_cluster_node_finds_own_shares",
     "CharonV.Keystore.share_idx_is_operator_position",
     "CharonV.Keystore.recursive_decrypt_order_independent",
-    "CharonV.Keystore.recursive_decrypt_sound_partial",
+    "CharonV.Keystore.recursive_decrypt_sound",
+    "CharonV.Keystore.recursive_no_password_files_is_an_error",
     "CharonV.Keystore.recursive_zero_key_witness",
     "CharonV.Keystore.recursive_indices_never_sequenced",
 ]
 
-KNOWN_FINDINGS = [
-    {"property": "C12", "sig": "keystore:recursive_zero_key_without_password_files",
-     "what": "keystore.LoadFilesRecursively (eth2util/keystore/load.go): when no .txt file exists anywhere below the directory, "
-             "`ok` is false, the loop over passwordsMap has nothing to range over, `err` stays nil and every keystore file is "
-             "returned as KeyFile{PrivateKey: all-zero} WITHOUT error (ops `cfg; mkdir r; put r/key.json ks 5 1; loadrec r` -> "
-             "`ok files=r/key.json:1:0 keys=0`; kernel-checked witness CharonV.Keystore.recursive_zero_key_witness; proved with "
-             "at least one password file: recursive_decrypt_sound_partial). Caller: cmd/createcluster.go getKeys (create cluster "
-             "--split-existing-keys without sequenced keys) hands these zero keys on as the validator keys to split; the split "
-             "then fails later in tbls with 'sec is zero' instead of a keystore error. Candidate repair: "
-             "fixes/C12-keystore-recursive-zero-key.diff"},
-    {"property": "C12", "sig": "keystore:zero_key_duplicate_index_accepted",
-     "what": "KeyFiles.SequencedKeys (eth2util/keystore/load.go) detects a duplicate file index by `resp[idx] != zero`: a file "
-             "holding the all-zero key does not mark its slot. keystore-0.json (zero key) and keystore-00.json (key K, same "
-             "index 0 - leading zeros are dropped), delivered in this order, are accepted and the result is [K, 0...0]: the slot of "
-             "the missing index 1 is a zero key; in the other arrival order the same directory is rejected (the verdict depends "
-             "on goroutine scheduling; about every second `load`). Kernel-checked witness "
-             "CharonV.Keystore.sequenced_zero_key_duplicate_witness; proved for files without zero key: "
-             "sequenced_accepts_iff_partial. Low severity: StoreKeys cannot write a zero-key keystore (tbls.SecretToPublicKey "
-             "rejects it), only a crafted / foreign EIP-2335 file holds one. Candidate repair: "
-             "fixes/C12-keystore-sequenced-zero-key-duplicate.diff (a separate `seen` slice)"},
+KNOWN_FINDINGS = []
+
+FIXED = [
+    {"property": "C12", "sig": "keystore:recursive_zero_key_without_password_files", "commit": "cefbe7e",
+     "what": "keystore.LoadFilesRecursively (eth2util/keystore/load.go): with no .txt file anywhere below the directory `ok` was "
+             "false, the loop over passwordsMap had nothing to range over, `err` stayed nil and every keystore file was returned "
+             "as KeyFile{PrivateKey: all-zero} WITHOUT error (ops `cfg; mkdir r; put r/key.json ks 5 1; loadrec r` gave "
+             "`ok files=r/key.json:1:0 keys=0`; reached from cmd/createcluster.go getKeys). Repaired: the work function fails with "
+             "'no password files found' (fixes/C12-keystore-recursive-zero-key.diff). Theorems: recursive_decrypt_sound (now "
+             "without hypothesis), recursive_no_password_files_is_an_error; recursive_zero_key_witness is a statement about the "
+             "unrepaired switch Fixes.asIs and shows the repaired loader failing on the same input. Reverting the commit makes "
+             "the monitor fire again (25 times in seed 1) and the streams differ (err:nopw)"},
+    {"property": "C12", "sig": "keystore:zero_key_duplicate_index_accepted", "commit": "edaf179",
+     "what": "KeyFiles.SequencedKeys (eth2util/keystore/load.go) detected a duplicate file index by `resp[idx] != zero`: a file "
+             "holding the all-zero key did not mark its slot; keystore-0.json (zero key) and keystore-00.json (key K, same index "
+             "0), delivered in this order, were accepted with the result [K, 0...0], in the other arrival order rejected. Repaired: "
+             "a separate `seen` slice (fixes/C12-keystore-sequenced-zero-key-duplicate.diff). Theorems: sequenced_accepts_iff, "
+             "sequenced_result, sequenced_order_independent, sequenced_rejects_duplicate now hold for every content, the zero key "
+             "included; sequenced_zero_key_duplicate_witness is a statement about Fixes.asIs and shows the repaired code rejecting "
+             "both orders. Reverting the commit makes the monitor fire again (4 / 5 times in seeds 1 / 2)"},
 ]
 
 LEVEL_TEXT = (" The clause 'each key share stored for a node corresponds to that node's public share in the lock' also rests on "
@@ -91,10 +93,10 @@ LEVEL_TEXT = (" The clause 'each key share stored for a node corresponds to that
     "then LoadFilesUnordered.SequencedKeys returns exactly the stored secrets in the stored order (roundtrip_sequenced), while "
     "Keys() is only a permutation of them (keys_unsequenced_is_a_permutation, keys_unsequenced_order_witness with 12 keys); "
     "SequencedKeys accepts iff the file indices are exactly 0..k-1 each once, puts every key at its index, drops and adds none "
-    "and does not depend on the arrival order - for files without the all-zero key (sequenced_accepts_iff_partial, "
-    "sequenced_result, sequenced_order_independent, sequenced_rejects_duplicate_partial; index-less files and gaps are rejected "
-    "for every content: sequenced_rejects_out_of_range; as the code is, a zero-key file defeats the duplicate check: "
-    "sequenced_zero_key_duplicate_witness); extractFileIndex is specified as a total function: the leftmost match of the unanchored "
+    "and does not depend on the arrival order - for every content, the all-zero key included, since repair edaf179 "
+    "(sequenced_accepts_iff, sequenced_result, sequenced_order_independent, sequenced_rejects_duplicate, "
+    "sequenced_rejects_out_of_range; before the repair a zero-key file defeated the duplicate check: "
+    "sequenced_zero_key_duplicate_witness about Fixes.asIs); extractFileIndex is specified as a total function: the leftmost match of the unanchored "
     "expression keystore-(?:insecure-)?([0-9]+).json whose `.` is a wildcard, on the FULL path, value by strconv.Atoi (leading "
     "zeros dropped: keystore-1.json and keystore-01.json both 1), -1 without match, error from 2^63 (extract_none_iff, "
     "extract_some_iff, extract_err_iff, match_capture_unique, extract_ignores_leading_zeros, extract_store_name, "
@@ -104,9 +106,10 @@ LEVEL_TEXT = (" The clause 'each key share stored for a node corresponds to that
     "position + 1 (k2v_accepts_iff, k2v_sound, k2v_uses_every_share_once, k2v_index_is_position - the function ranges over slices "
     "only, so there is no map order to depend on), and composed with create cluster's placement every node finds for every "
     "validator its own share (placement_maps_own_share, create_cluster_node_finds_own_shares); ShareIdxForCluster is the operator "
-    "position + 1 (share_idx_is_operator_position); LoadFilesRecursively's password search is order independent and sound when at "
-    "least one password file exists (recursive_decrypt_order_independent, recursive_decrypt_sound_partial; without any it returns "
-    "the zero key: recursive_zero_key_witness) and its result never passes SequencedKeys (recursive_indices_never_sequenced). Tied "
+    "position + 1 (share_idx_is_operator_position); LoadFilesRecursively's password search is order independent and a returned key is "
+    "the keystore's own secret under a password that is there (recursive_decrypt_order_independent, recursive_decrypt_sound; "
+    "without any password file it fails since repair cefbe7e: recursive_no_password_files_is_an_error, before it returned the "
+    "zero key: recursive_zero_key_witness about Fixes.asIs) and its result never passes SequencedKeys (recursive_indices_never_sequenced). Tied "
     "by stream keystore: the real package on real files (insecure keystores, 0..25 secrets, adversarial directories), the compiled "
     "model on the same ops, worlds compared after every op.")
 
@@ -117,8 +120,10 @@ TRUSTED_BASE = [
     "KeysharesToValidatorPubkey: both loops with their three + one errors and Index = shareIdx + 1; ShareIdxForCluster over "
     "lock.PeerIDs / NodeIdx) and load.go (LoadFilesUnordered: glob keystore-*.json incl. directories, read, unmarshal, loadPassword, "
     "decrypt, extractFileIndex on the full path, Flatten = first non-cancellation error in arrival order, 'no keys found'; "
-    "LoadFilesRecursively: *.json that unmarshal, *.txt as passwords, own password first then all others, err left nil when there "
-    "are none, FileIndex from the 1-based atomic counter; Keys; SequencedKeys incl. the `!= zero` duplicate test; HasIndex; the "
+    "LoadFilesRecursively: *.json that unmarshal, *.txt as passwords, own password first then all others, 'no password files "
+    "found' when there are none, FileIndex from the 1-based atomic counter; Keys; SequencedKeys with its `seen` slice; HasIndex; "
+    "the two repairs cefbe7e / edaf179 are switches of the record Fixes (Fixes.current = /repo, what the driver compares "
+    "against; Fixes.asIs = before, only in the two witness theorems); the "
     "regular expression as leftmost-first match with greedy digits and one-digit backtracking, strconv.Atoi as value < 2^63); tied "
     "by correspondence stream keystore: after every op the answer (error class; loaded files as path:FileIndex:secret in arrival "
     "order, Keys(), SequencedKeys() or its error class; validator = share @ Index sorted by validator, error class with "
@@ -148,7 +153,8 @@ TRUSTED_BASE = [
     "keys_not_permutation (store into a directory without keystore-*.json, untouched since, inert path: SequencedKeys = the stored "
     "list, Keys() a permutation); gap_accepted, duplicate_index_accepted, indexless_accepted, valid_sequence_rejected, "
     "seq_wrong_order, seq_dropped_or_added (SequencedKeys judged on the FileIndex values the implementation reports); "
-    "zero_key_duplicate_index_accepted, recursive_zero_key_without_password_files (the two known findings); "
+    "zero_key_duplicate_index_accepted, recursive_zero_key_without_password_files (the two repaired defects: silent on /repo, "
+    "firing again when cefbe7e / edaf179 are reverted); "
     "file_index_differs_from_name (canonical names carry their own number; own parser, and the pattern text copied into a Go "
     "regexp for the inert test of the directory), loaded_wrong_secret, zero_key_loaded, load_dropped_or_added, "
     "recursive_index_not_a_permutation; share_mapped_to_wrong_validator, share_dropped, share_index_not_position, k2v_verdict (the "
